@@ -106,6 +106,8 @@ func cmdWorker(args []string) int {
 	seed := fs.Int64("seed", 0, "")
 	deadline := fs.Int64("deadline", 0, "")
 	claim := fs.String("claim", "", "")
+	onlyUnit := fs.Int("unit", -1, "")
+	journalCases := fs.Bool("journalcases", false, "")
 	fs.Parse(args)
 	c := Lookup(*prop)
 	if c == nil {
@@ -120,6 +122,13 @@ func cmdWorker(args []string) int {
 	}
 	w := NewW(*prop, *tier, *seed, dl)
 	units := c.Units(*tier)
+	setMemLimit()
+	unitJournal := *out + ".journal"
+	if *journalCases {
+		if f, err := os.OpenFile(unitJournal, os.O_CREATE|os.O_WRONLY|os.O_TRUNC, 0o644); err == nil {
+			w.SetJournal(f)
+		}
+	}
 
 	finish := func(code int) int {
 		res, err := w.Finish(filepath.Dir(*out), *idx)
@@ -145,37 +154,19 @@ func cmdWorker(args []string) int {
 	}
 	done := make(chan struct{})
 	var once sync.Once
-	go func() {
-		last := w.curSeq.Load()
-		lastChange := time.Now()
-		t := time.NewTicker(2 * time.Second)
-		defer t.Stop()
-		for {
-			select {
-			case <-done:
-				return
-			case <-t.C:
-				cur := w.curSeq.Load()
-				if cur != last {
-					last, lastChange = cur, time.Now()
-					continue
-				}
-				if time.Since(lastChange) > stall {
-					once.Do(func() {
-						desc := "unknown"
-						if f, ok := w.cur.Load().(func() string); ok && f != nil {
-							desc = f()
-						}
-						w.res.Exhaustive = false
-						w.Fail("no-progress", fmt.Sprintf("a single case made no progress for %v", stall), map[string]string{"kind": "stall", "in_flight": desc})
-						os.Exit(finish(3))
-					})
-				}
-			}
-		}
-	}()
+	// only for checks whose property is about termination (C02): elsewhere a slow external
+	// step (e.g. the -race pass of C18 on a loaded machine) must never become an alarm
+	if c.CrashIsViolation {
+		go watchdog(w, done, &once, stall, finish)
+	}
 
 	next := func(prev int) int {
+		if *onlyUnit >= 0 {
+			if prev < 0 {
+				return *onlyUnit
+			}
+			return 1 << 30
+		}
 		if *claim != "" {
 			return claimUnit(*claim)
 		}
@@ -186,6 +177,11 @@ func cmdWorker(args []string) int {
 	}
 	for u := next(-1); u < units; u = next(u) {
 		w.Unit = u
+		if !*journalCases {
+			os.WriteFile(unitJournal, []byte(fmt.Sprintf("U %d\n", u)), 0o644)
+		} else if w.Journaling() {
+			w.JournalCase(func() string { return fmt.Sprintf("unit %d", u) })
+		}
 		func() {
 			defer func() {
 				if r := recover(); r != nil {
@@ -211,6 +207,36 @@ func cmdWorker(args []string) int {
 }
 
 // panicSite extracts the first frame inside the code under test.
+func watchdog(w *W, done chan struct{}, once *sync.Once, stall time.Duration, finish func(int) int) {
+	last := w.curSeq.Load()
+	lastChange := time.Now()
+	t := time.NewTicker(2 * time.Second)
+	defer t.Stop()
+	for {
+		select {
+		case <-done:
+			return
+		case <-t.C:
+			cur := w.curSeq.Load()
+			if cur != last {
+				last, lastChange = cur, time.Now()
+				continue
+			}
+			if time.Since(lastChange) > stall {
+				once.Do(func() {
+					desc := "unknown"
+					if f, ok := w.cur.Load().(func() string); ok && f != nil {
+						desc = f()
+					}
+					w.res.Exhaustive = false
+					w.Fail("no-progress", fmt.Sprintf("a single case made no progress for %v", stall), map[string]string{"kind": "stall", "in_flight": desc})
+					os.Exit(finish(3))
+				})
+			}
+		}
+	}
+}
+
 func panicSite(stack string) string {
 	lines := strings.Split(stack, "\n")
 	for _, l := range lines {
@@ -357,9 +383,20 @@ func cmdCheck(args []string) int {
 	harness := ""
 	for i, r := range results {
 		if r.res == nil {
-			// A worker that died without a result: hard crash of the process
-			// (fatal error, OOM). Reported as a harness error with its stderr;
-			// checks about crashes (C02) isolate inputs themselves.
+			// A worker that died without a result: hard crash of the process (fatal error,
+			// out of memory, stack overflow).
+			if c.CrashIsViolation {
+				if v := attributeCrash(self, id, *tier, scratch, i, r.stderr); v != nil {
+					if o, ok := vio[v.Key]; ok {
+						o.Count++
+					} else {
+						vio[v.Key] = v
+					}
+					m.Exhaustive = false
+					m.Caps = append(m.Caps, fmt.Sprintf("worker %d crashed; its remaining units were not explored", i))
+					continue
+				}
+			}
 			harness += r.err + "\n" + r.stderr + "\n"
 			continue
 		}
@@ -447,7 +484,10 @@ func cmdCheck(args []string) int {
 		// confirm by replaying twice without the explorer
 		// a report of the race detector is proof in itself (no false positives) and depends on the
 		// timing of a free-running execution: it is not replay-confirmed
-		if c.Replay != nil && os.Getenv("VERIF_NO_CONFIRM") == "" && !strings.HasPrefix(v.Key, "data-race:") {
+		if strings.HasPrefix(v.Key, "process-crash") {
+			// confirmed by construction: the unit was re-run in a fresh process with a per-case
+			// journal and crashed again on this case
+		} else if c.Replay != nil && os.Getenv("VERIF_NO_CONFIRM") == "" && !strings.HasPrefix(v.Key, "data-race:") {
 			ok1 := runReplay(self, path)
 			ok2 := runReplay(self, path)
 			if !(ok1 && ok2) {
@@ -484,6 +524,52 @@ func cmdCheck(args []string) int {
 		}
 	}
 	return exit
+}
+
+// attributeCrash re-runs the unit that was in flight when worker i died, with a per-case
+// journal, and returns a violation naming the crashing case (nil if it does not crash again).
+func attributeCrash(self, id, tier, scratch string, i int, stderr string) *Violation {
+	jb, err := os.ReadFile(filepath.Join(scratch, fmt.Sprintf("w%d.json.journal", i)))
+	if err != nil {
+		return nil
+	}
+	var unit int
+	if _, err := fmt.Sscanf(string(jb), "U %d", &unit); err != nil {
+		return nil
+	}
+	out := filepath.Join(scratch, fmt.Sprintf("crash%d.json", i))
+	cmd := exec.Command(self, "worker", "-prop", id, "-tier", tier, "-unit", strconv.Itoa(unit), "-journalcases", "-out", out)
+	cmd.Env = append(os.Environ(), "GOMAXPROCS=1", "VERIF_SCRATCH_DIR="+scratch)
+	var eb bytes.Buffer
+	cmd.Stderr = &eb
+	cmd.Stdout = &eb
+	cmd.Run()
+	if _, err := os.Stat(out); err == nil {
+		return nil // did not crash again
+	}
+	jb, err = os.ReadFile(out + ".journal")
+	if err != nil {
+		return nil
+	}
+	last := ""
+	for _, l := range strings.Split(strings.TrimSpace(string(jb)), "\n") {
+		if strings.HasPrefix(l, "C ") && !strings.HasPrefix(l, "C unit ") {
+			last = l[2:]
+		}
+	}
+	if last == "" {
+		return nil
+	}
+	reason := "process crashed"
+	es := eb.String()
+	for _, l := range strings.Split(es, "\n") {
+		if strings.HasPrefix(l, "fatal error:") || strings.HasPrefix(l, "runtime:") {
+			reason = l
+			break
+		}
+	}
+	cs, _ := json.Marshal(map[string]string{"kind": "crash", "case": last, "unit": strconv.Itoa(unit)})
+	return &Violation{Property: id, Key: "process-crash:" + reason, What: fmt.Sprintf("the process died (%s) while handling case %s; stderr tail: %s", reason, last, tail(es, 600)), Case: cs, Count: 1}
 }
 
 func dedupStrings(in []string) []string {
